@@ -87,7 +87,7 @@ CLAIMED['C05'] = dict(
     note=NOTE + ' np.pad and argrelextrema are modelled concretely and validated exhaustively; spline/PCHIP evaluation is an oracle.')
 
 CLAIMED['C04'] = dict(
-    technique='Coq proof over an abstract-oracle model of the extraction loop (any signal type, any envelope / stopping oracle, any limit) + exhaustive scripted correspondence of the real get_next_imf control flow + bit-exact toy-envelope runs + trace conformance on real numerics',
+    technique='Coq proof over an abstract-oracle model of the extraction loop (any signal type, any envelope / stopping oracle, any limit) + exhaustive scripted correspondence of the real get_next_imf control flow + bit-exact toy-envelope runs + trace conformance on real numerics + TRANSLATION TIE: the control skeleton of get_next_imf / sift / mask_sift is regenerated from emd/sift.py on every run by a fail-closed ast translator and machine-checked refinement theorems (Prop_Tie_Sift.v) show the hand model computes exactly what the translated program computes, for all oracles and fuel',
     text='Theorems (Prop_C04.v) prove for EVERY signal type, envelope oracle, stopping oracle, step operator and iteration limit that the result of '
          'get_next_imf is exactly one of: the FIRST iterate x_k (x_0 = X, x_{k+1} = x_k - step*mean envelope) at which the rule fires with its full '
          'envelope mean removed (the n-th for a fixed count n), the first iterate left without envelopes (flagged final iff it is the unmodified '
@@ -99,7 +99,7 @@ CLAIMED['C04'] = dict(
          'the model. Oracle: the iterate sequence recomputed from the public stage functions on real signals (guard band 1e-6).',
     note=NOTE + ' Envelope interpolation is an oracle of the theorems (its own properties are C05); fixed with max_iters = 0 is outside the documented range and excluded by the guard.')
 CLAIMED['C01'] = dict(
-    technique='Coq proof over an abstract model of the outer sift loop (any abelian-group-like signal type, any extraction step) composed with the extraction-loop theorems + bit-exact toy-envelope correspondence of the real sift + completeness oracle on real signals',
+    technique='Coq proof over an abstract model of the outer sift loop (any abelian-group-like signal type, any extraction step) composed with the extraction-loop theorems + bit-exact toy-envelope correspondence of the real sift + completeness oracle on real signals + TRANSLATION TIE: the control skeleton of get_next_imf / sift / mask_sift is regenerated from emd/sift.py on every run by a fail-closed ast translator and machine-checked refinement theorems (Prop_Tie_Sift.v) show the hand model computes exactly what the translated program computes, for all oracles and fuel',
     text='Theorems (Prop_C01.v) prove for every signal type with the two group laws, every extraction step and every threshold test that each layer '
          'is extracted from the input minus the sum of the previous layers, that the loop ends only for the documented reasons (cap, threshold, '
          'cleared flag), and that when it ends because the extraction cleared its flag the components sum to the input exactly and the last one is '
@@ -111,7 +111,7 @@ CLAIMED['C01'] = dict(
     note=NOTE + ' Termination of the OUTER loop is not claimed (it is not part of the property); runs that time out are discarded and counted.')
 
 CLAIMED['C03'] = dict(
-    technique='Coq proof over the abstract outer sift loop (any extraction function, so classic and masked alike) and over models of the ensemble / complete-ensemble / second-layer bookkeeping + bit-exact toy-envelope correspondence of all five variants + capped-vs-uncapped and manual-peeling oracle on real numerics',
+    technique='Coq proof over the abstract outer sift loop (any extraction function, so classic and masked alike) and over models of the ensemble / complete-ensemble / second-layer bookkeeping + bit-exact toy-envelope correspondence of all five variants + capped-vs-uncapped and manual-peeling oracle on real numerics + TRANSLATION TIE: the control skeleton of get_next_imf / sift / mask_sift is regenerated from emd/sift.py on every run by a fail-closed ast translator and machine-checked refinement theorems (Prop_Tie_Sift.v) show the hand model computes exactly what the translated program computes, for all oracles and fuel',
     text='Theorems (Prop_C03.v) prove for EVERY per-layer extraction function (classic get_next_imf, or get_next_imf_mask with any frequency/amplitude '
          'schedule) that component k is that extraction applied to the input minus the first k components, that a cap of k >= 1 never yields more than k '
          'components and yields exactly the first k of the uncapped run, and that every component is a well-formed N-sample signal; that mask_sift\'s '
